@@ -942,10 +942,13 @@ impl Compiler {
         if let Some(finalizer) = &try_stmt.finalizer {
             self.builder.set_span(finalizer.span);
 
-            // Compile finally block
+            // Compile finally block in a scope of its own (its let/const/class
+            // declarations are local to the block, like those of the try block)
+            self.builder.emit(Op::PushScope);
             for stmt in finalizer.body.iter() {
                 self.compile_statement_impl(stmt)?;
             }
+            self.builder.emit(Op::PopScope);
 
             // FinallyEnd completes any pending return/throw
             self.builder.emit(Op::FinallyEnd);
